@@ -506,7 +506,10 @@ func (p *Parser) parseData() (names []string, sequences map[string]string, nchar
 					for !stopseq {
 						tok3, lit3 := p.scanIgnoreWhitespace()
 						switch tok3 {
-						case IDENT:
+						case IDENT, NUMERIC, NEXUS, BEGIN, DATA, TAXA, TAXLABELS, TREES, TREE, DIMENSIONS, NTAX, NCHAR,
+							FORMAT, DATATYPE, MISSING, GAP, MATCHCHAR, MATRIX, END:
+							// After the sequence identifier, any word is a piece of sequence,
+							// even if it spells a keyword (e.g. the residues "GAP" or "END")
 							sequence = sequence + lit3
 						case ENDOFLINE:
 							stopseq = true
